@@ -71,7 +71,7 @@ Inductive ev :=
   | ESubmit                       (* evaluator.submit creates the next job: status READY, task queued *)
   | EGatherIn | EGatherOut | ETest
   | ECloseIn | ECloseOut | EReturn
-  | EAgain (b : option budget)    (* another search() call on the same objects: Some b = with a new budget, None = budget untouched *)
+  | EAgain (b : option budget)    (* another search() call / a budget (re)armed between calls: Some b = a new budget, None = budget untouched *)
   (* event loop: the execute() task of job j *)
   | EAcquire (j : nat)            (* gets a worker: status RUNNING, run-function launched *)
   | ETell (j : nat)               (* wait_for raised TimeoutError: status CANCELLING *)
@@ -159,11 +159,15 @@ Definition gstep (c : cfg) (g : gst) (e : ev) : option gst :=
       end
   | EReturn => match phase g with PClosed => Some (set_phase g PDone) | _ => None end
   | EAgain b =>
-      match phase g with
-      | PDone =>
-          Some (set_flags g (match b with Some _ => true | None => timed g end)
+      (* another search() call after the previous one returned - or, between calls of an evaluator that was not closed and
+         while no job is in flight, a budget (re)armed with `evaluator.timeout = t` / a search(timeout=) call on an evaluator
+         that has its own budget: the setter restarts the clock, whatever budget was set before *)
+      let g' := set_flags g (match b with Some _ => true | None => timed g end)
                             (match b with Some _ => false | None => expired g end)
-                            (match b with Some BSearch => true | _ => false end) false POut)
+                            (match b with Some BSearch => true | _ => false end) false POut in
+      match phase g with
+      | PDone => Some g'
+      | POut => if all_settled g then Some g' else None
       | _ => None
       end
   | EAcquire j =>
